@@ -64,8 +64,13 @@ CHECKS.update({
         "design_ref": "DESIGN.md 2/C05",
     },
 })
+CHECKS["C06"] = {
+    "text": "topicosvg on ~27 gradient templates (linear/radial, both gradientUnits, numbers/percentages incl. non-square viewBox, gradientTransform, spreadMethod, href chains contributing attributes and/or stops, focal parameters) applied to a rectangle with symbolic position/size under symbolic ancestor transforms. Oracle: for all points and parameters the source's 'point has parameter t' relation (after units, bbox, gradientTransform, CTM per the SVG text) implies the output gradient's - a polynomial SMT validity query per path (nlsat); output gradients self-contained (no href, plain numbers, own stops, resolving id).",
+    "note": _PIPE_NOTE + " 1e-9 almost_equal band of decompose_translation assumed empty; fully symbolic 2x2 parts on both gradient and shape only in the thorough tier (10-20 min per template).",
+    "design_ref": "DESIGN.md 2/C06",
+}
 NOT_APPLICABLE = {
     "C17": "termination/time-bound over cyclic reference graphs and libxml2 entity loading: no numeric or byte-level input to make symbolic, non-termination is not an assertion a bounded symbolic path can refute (budget exhausted = inconclusive); enumerating reference graphs under a watchdog would be a different technique family (DESIGN.md section 3)",
 }
-for _p in ["C01","C06","C07","C08","C10","C14","C15","C16"]:
+for _p in ["C01","C07","C08","C10","C14","C15","C16"]:
     NOT_APPLICABLE.setdefault(_p, PENDING)
